@@ -9,7 +9,7 @@ REG.fields("DataView", _valid=Bool, _slices=Dyn, _error_message=Dyn,
 WINDOW = "has_bounds(dvslice) and step_is(dvslice, 1) and 0 <= istart(dvslice) and istart(dvslice) <= istop(dvslice)"
 
 REG.contract(
-    "nixio.data_view.DataView._transform_coordinates.<locals>.transform_slice",
+    "nixio.data_view.DataView._transform_coordinates.<locals>.transform_slice", replay=dict(harness="c06_view"),
     props=["C06"],
     params=dict(uslice=Slice, dvslice=Slice, oob=ExcOf("OutOfBounds")),
     requires=[WINDOW],
@@ -154,7 +154,8 @@ REG.invariants["DataView"] = [DV_INV]
 REG.inline("nixio.data_view.DataView.valid", "nixio.data_view.DataView.debug_message")
 
 REG.contract(
-    "nixio.data_view.DataView.data_extent", props=["C06"],
+    "nixio.data_view.DataView.data_extent", replay=dict(harness="c06_view", extract=dict(window="as_sliceseq(field(self, '_slices'))")),
+    props=["C06"],
     params=dict(self=Obj("DataView")),
     result=Opt(SeqOf(Int)),
     let="W = as_sliceseq(field(self, '_slices'))",
@@ -166,7 +167,8 @@ REG.contract(
 )
 
 REG.contract(
-    "nixio.data_view.DataView._expand_user_slices", props=["C06"],
+    "nixio.data_view.DataView._expand_user_slices", replay=dict(harness="c06_view", extract=dict(window="as_sliceseq(field(self, '_slices'))")),
+    props=["C06"],
     params=dict(self=Obj("DataView"), user_slices=Dyn),
     requires=["field(self, '_valid')", "is_index(user_slices)"],
     let="rank = len(as_sliceseq(field(self, '_slices')))",
@@ -178,7 +180,8 @@ REG.contract(
 )
 
 REG.contract(
-    "nixio.data_view.DataView._transform_coordinates", props=["C06"],
+    "nixio.data_view.DataView._transform_coordinates", replay=dict(harness="c06_view", extract=dict(window="as_sliceseq(field(self, '_slices'))")),
+    props=["C06"],
     params=dict(self=Obj("DataView"), user_slices=Dyn),
     requires=["field(self, '_valid')", "is_index(user_slices)"],
     let="W = as_sliceseq(field(self, '_slices')); E = expand(user_slices, len(W)); "
@@ -221,7 +224,7 @@ def step_none(ex, p, sl):
 
 
 REG.contract(
-    "nixio.data_view.DataView.__init__", props=["C06"],
+    "nixio.data_view.DataView.__init__", replay=dict(harness="c06_view"), props=["C06"],
     params=dict(self=Obj("DataView"), da=Obj("DataArray"), slices=Dyn),
     requires=[SLICES_DOMAIN, "obj(da) != 0", "dataset_of(da) != 0"],
     let="N = dshape(dataset_of(da)); S = as_valseq(slices)",
@@ -265,7 +268,8 @@ DV_OK = ["obj(field(self, 'array')) != 0", "dataset_of(field(self, 'array')) != 
          "field(self, '_h5group') == field(field(self, 'array'), '_h5group')"]
 
 REG.contract(
-    "nixio.data_view.DataView._read_data", props=["C06", "C15"],
+    "nixio.data_view.DataView._read_data", replay=dict(harness="c06_view", extract=dict(window="as_sliceseq(field(self, '_slices'))")),
+    props=["C06", "C15"],
     params=dict(self=Obj("DataView"), sl=Dyn),
     requires=DV_OK + ["is_none(sl) or is_index(sl)"],
     let="W = as_sliceseq(field(self, '_slices')); E = expand(sl, len(W)); n = min(len(W), len(E)); A = field(self, 'array')",
@@ -284,7 +288,8 @@ REG.contract(
                   "raises-only:IndexError", "raises-iff:IndexError"])
 
 REG.contract(
-    "nixio.data_view.DataView._write_data", props=["C06"],
+    "nixio.data_view.DataView._write_data", replay=dict(harness="c06_view", extract=dict(window="as_sliceseq(field(self, '_slices'))")),
+    props=["C06"],
     params=dict(self=Obj("DataView"), data=Dyn, sl=Dyn),
     requires=DV_OK + ["is_none(sl) or is_index(sl)"],
     let="W = as_sliceseq(field(self, '_slices')); E = expand(sl, len(W)); n = min(len(W), len(E)); A = field(self, 'array'); "
